@@ -565,8 +565,53 @@ def rule_like(repo, tier):
     return res
 
 
+def euler_shape_clause(repo, res, rid):
+    """euler2SO3 restores the caller's batch shape from the shape taken BEFORE it flattens its argument."""
+    f = repo.func('pypose.lietensor.convert', 'euler2SO3')
+    rets = returns_of(f.node)
+    if len(rets) != 1:
+        raise AnalysisError(rid + ': euler2SO3 has %d returns' % len(rets))
+    v = inline_straight(f.node, upto=rets[0]).value(rets[0].value)
+    lv = [c for c in ast.walk(v) if isinstance(c, ast.Call) and isinstance(c.func, ast.Attribute) and c.func.attr in ('lview', 'view', 'reshape')
+          and any(isinstance(x, ast.Attribute) and x.attr == 'shape' for a_ in c.args for x in ast.walk(a_))]
+    if not lv:
+        raise AnalysisError(rid + ': euler2SO3 no longer restores the batch shape of its argument')
+    for c in lv[:1]:
+        shapes = [x for a_ in c.args for x in ast.walk(a_) if isinstance(x, ast.Attribute) and x.attr == 'shape']
+        stale = [x for x in shapes if any(isinstance(y, ast.Call) and isinstance(y.func, ast.Attribute) and y.func.attr in ('reshape', 'view', 'flatten') for y in ast.walk(x.value))]
+        res.inst({'function': f.fq, 'restored shape': src(shapes[0])[:50], 'taken before the flattening': not stale}, f.fq)
+        if stale:
+            res.add(Finding(rid, f, 'euler2SO3 restores the batch shape from `%s`, the shape of the already flattened (-1, 3) tensor: the result keeps the flat '
+                            '(N, 4) shape for every batch rank other than one' % src(stale[0])[:50], node=rets[0], construct='shape read after flattening'))
+    return res
+
+
+@guarded
+def rule_width(repo, tier):
+    """The storage width of a LieTensor (the extent of its last axis) is `ltype.dimension`; `embedding` and `manifold` are other numbers for the algebra types
+    (so3: dimension 3, embedding 4).  Everything that checks or builds the last axis - the constructor's assertion, the ltype re-attachment in
+    __torch_function__, lview - reads `dimension` (or the tensor's own shape[-1:]).  euler2SO3 restores the caller's batch shape from the shape taken BEFORE it
+    flattens its argument."""
+    res = RuleResult('C06.WIDTH', 'the last axis of a LieTensor is checked / built with ltype.dimension in __init__, __torch_function__ and lview; euler2SO3 views its '
+                     'result with the batch shape its argument had before it was flattened', floor=4)
+    for q in ('LieTensor.__init__', 'LieTensor.__torch_function__', 'LieTensor.lview'):
+        f = repo.func(LT, q)
+        attrs = [n.attr for n in ast.walk(f.node) if isinstance(n, ast.Attribute) and n.attr in ('dimension', 'embedding', 'manifold') and
+                 (dotted(n.value) or '').endswith('ltype')]
+        ok = 'dimension' in attrs and not (set(attrs) - {'dimension'})
+        res.inst({'function': f.fq, 'ltype attributes read': sorted(set(attrs)), 'storage width only': ok}, f.fq)
+        if not attrs:
+            raise AnalysisError('C06.WIDTH: %s no longer reads the storage width of its ltype' % q)
+        if not ok:
+            res.add(Finding('C06.WIDTH', f, '%s reads ltype.%s for the last axis: the storage width is ltype.dimension; for the algebra types the embedding / manifold '
+                            'dimension is another number (so3: 3 vs 4), so views and checks of algebra tensors get the wrong width'
+                            % (q, sorted(set(attrs) - {'dimension'})[0]), construct='width attribute'))
+    euler_shape_clause(repo, res, 'C06.WIDTH')
+    return res
+
+
 def _rules_core(repo, tier):
-    return [rule_like(repo, tier), rule_domain(repo, tier), rule_mut(repo, tier), rule_patch(repo, tier), rule_bcast(repo, tier), rule_wrap(repo, tier), rule_dtype(repo, tier)]
+    return [rule_like(repo, tier), rule_domain(repo, tier), rule_mut(repo, tier), rule_patch(repo, tier), rule_bcast(repo, tier), rule_wrap(repo, tier), rule_dtype(repo, tier), rule_width(repo, tier)]
 
 
 def rules(repo, tier):
